@@ -6,6 +6,15 @@
 //
 // The main goroutine is locked to the main thread so that all system calls of the commit are
 // issued by one thread (strace's injection counters are per thread).
+//
+// Environment (error-injection scenarios of the stream):
+//
+//	CRASHWRITER_PAD=<n>           the inserted document gets an extra field pad = n times "x" (large databases;
+//	                              a document of that size does not fit on the command line)
+//	CRASHWRITER_RLIMIT_FSIZE=<n>  RLIMIT_FSIZE is set to n bytes before the commit and SIGXFSZ is ignored: a write
+//	                              crossing the limit is SHORT, the next one fails with EFBIG (real kernel, no ptrace)
+//
+// Output: "committed" (Commit returned nil) | "insert-error" (it returned an error) | "open-error".
 package main
 
 import (
@@ -13,7 +22,11 @@ import (
 	"encoding/hex"
 	"fmt"
 	"os"
+	"os/signal"
 	"runtime"
+	"strconv"
+	"strings"
+	"syscall"
 
 	"go.mongodb.org/mongo-driver/bson"
 
@@ -36,10 +49,30 @@ func main() {
 		fmt.Fprintln(os.Stderr, "bad bson:", err)
 		os.Exit(2)
 	}
+	if v := os.Getenv("CRASHWRITER_PAD"); v != "" {
+		n, err := strconv.Atoi(v)
+		if err != nil || n < 0 {
+			fmt.Fprintln(os.Stderr, "bad CRASHWRITER_PAD")
+			os.Exit(2)
+		}
+		doc = append(doc, bson.E{Key: "pad", Value: strings.Repeat("x", n)})
+	}
 	client, engine, err := lungo.Open(context.Background(), lungo.Options{Store: lungo.NewFileStore(os.Args[1], 0666)})
 	if err != nil {
 		fmt.Println("open-error")
 		os.Exit(3)
+	}
+	if v := os.Getenv("CRASHWRITER_RLIMIT_FSIZE"); v != "" {
+		n, err := strconv.ParseUint(v, 10, 64)
+		if err != nil {
+			fmt.Fprintln(os.Stderr, "bad CRASHWRITER_RLIMIT_FSIZE")
+			os.Exit(2)
+		}
+		signal.Ignore(syscall.SIGXFSZ)
+		if err := syscall.Setrlimit(syscall.RLIMIT_FSIZE, &syscall.Rlimit{Cur: n, Max: n}); err != nil {
+			fmt.Println("rlimit-error")
+			os.Exit(5)
+		}
 	}
 	_, err = client.Database(os.Args[2]).Collection(os.Args[3]).InsertOne(context.Background(), doc)
 	if err != nil {
